@@ -8,7 +8,7 @@
 //! API, bitset `BlockRanges` (valid by C17/C18), header model {height, hash, parent hash} whose
 //! `verify` is the adjacency relation of C02, `VerifiedExtendedHeaders` = an internally linked
 //! batch of 1..=2 headers. The redb store is NOT covered (B-tree engine, out of reach).
-use crate::models::bitranges::{BlockRanges, BlockRangesError, MAXH};
+use crate::models::bitranges::{BlockRange, BlockRanges, BlockRangesError, MAXH};
 
 macro_rules! debug {
     ($($t:tt)*) => {};
